@@ -677,6 +677,9 @@ def fastpath_coherent(ctx):
                         ins_nodes.update(g_.nodes_of(i_))
                     ctx.check(g_.every_path_to(ins_nodes, g_.nodes_of(a)), a, "every path that records this function in the table first evicts its namesakes",
                               "the table insert can be reached without running the eviction loop")
+                    early = [x for s_ in a.body for x in walk_local(s_) if isinstance(x, (ast.Break, ast.Return))]
+                    ctx.check(not early and not a.orelse, a, "the eviction loop visits every entry (no break / return)",
+                              "the eviction loop stops at the first match: further live functions with the same identifier stay validated against a source that is no longer stored")
                     conds = [(unparse(t), pol) for (i2, t, pol) in g_.conditions_at(g_.nodes_of(n)) if in_block(i2, a.body)]
                     ctx.check(len(conds) == 1 and "is not self.func" in conds[0][0] and "_build_func_identifier" in conds[0][0] and conds[0][1], n,
                               "evicted: every other function with the same identifier", "eviction is conditioned on %s" % conds)
@@ -741,6 +744,9 @@ def fresh_source(ctx):
     for h in [h for t in nodes_of_type(f, ast.Try) for h in t.handlers]:
         for r in [n for s_ in h.body for n in walk_local(s_) if isinstance(n, ast.Return)]:
             first = r.value.elts[0] if isinstance(r.value, ast.Tuple) else r.value
+            if isinstance(first, ast.Name):
+                d_ = [x for s2 in h.body for x in walk_local(s2) if isinstance(x, ast.Assign) and first.id in stores_to(x)]
+                first = d_[0].value if len(d_) == 1 else first
             txt = unparse(first)
             if "__code__" in txt:
                 ctx.check(txt in ("str(func.__code__.__hash__())", "str(hash(func.__code__))"), r, "source-less functions are fingerprinted by the hash of the whole code object (constants and names included)",
@@ -929,6 +935,12 @@ def inventory(ctx):
     ctx.check(bool(ff) and unparse(ff[0].value) == "[os.path.join(dirpath, fn) for fn in filenames]", ff[0] if ff else gi, "all files of the directory are counted")
     la = [a for a in _local_def(gi, "last_access") if isinstance(a.value, ast.Call) and call_name(a.value) == "os.path.getatime"]
     ctx.check(len(la) == 2 and dotted(la[0].value.args[0]) == "output_filename" and _path_const(la[0].value.args[0], gi) == "output.pkl", la[0] if la else gi, "last access = atime of output.pkl (fallback: the directory)")
+    if walk:
+        conts = [x for s_ in walk[0].body for x in walk_local(s_) if isinstance(x, (ast.Continue, ast.Break))]
+        stray = [x for x in conts if not any(isinstance(a_, ast.ExceptHandler) for a_ in ancestors(x))]
+        ctx.check(not stray, stray[0] if stray else walk[0], "an entry directory is skipped only when it vanished while being inspected (continue inside an OSError handler)",
+                  "the inventory skips entry directories on another condition (%s): they are never counted nor evicted, so the limits are not met" % (
+                      unparse(enclosing_stmt(stray[0]) if stray else walk[0], 60)))
     ap = [c for c in calls_in(gi) if call_name(c) == "items.append"]
     ctx.check(len(ap) == 1 and unparse(ap[0].args[0]) == "CacheItemInfo(dirpath, dirsize, last_access)", ap[0] if ap else gi, "one CacheItemInfo(path, size, last_access) per entry directory")
     m_ = ctx.repo.mod(SB)
